@@ -240,6 +240,16 @@ def plan(tier, seed):
         el, vars_ = element(*combo)
         vars_ = [[n, 'cls_x' if k == 'cls' else k, sl] for n, k, sl in vars_]
         jobs.append({'prog': wrap_root(el), 'vars': vars_, 'label': 'classes-x:%s' % (combo,)})
+    # statements written as data-tal-* attributes (enable_data_attributes), with characters in the expressions
+    # that are written as entities in attribute values
+    dform = {'tag': 'p', 'indent': 2, 'static': [['class', 's']], 'define': [['local', 'd', py("rec('d', dv if dv < 3 else 0)")]],
+             'condition': py("rec('c', cv) and 1 < 2"), 'content': ['text', py("rec('t', 'a & b' if d > 0 else \"q'\")")],
+             'attributes': [['title', py("rec('a', d) > 1 and 'x<y'")]], 'children': ['k']}
+    for sp in (None, 'data'):
+        j = {'prog': wrap_root(dform), 'vars': [['dv', 'int', 5], ['cv', 'bool', 0]], 'label': 'entities-in-statements:%s' % sp}
+        if sp:
+            j['spelling'] = sp
+        jobs.append(j)
     for kids, vars_, label in restore_programs():
         jobs.append({'prog': {'tag': 'div', 'children': ['A'] + kids + ['B'], 'close_indent': 0}, 'vars': vars_,
                      'label': label})
